@@ -87,6 +87,10 @@ type BoardHandle struct {
 	Unavailable bool // Send fails, reads return nothing
 	ReadLimit   int  // >0: a read returns at most this many messages (short read / lag)
 	SendErrOnce bool // next Send fails after the gate (board unreachable), then heals
+	// SendPartialOnce > 0: the next Send of more than that many messages gets that
+	// many onto the board and then fails (FileStorage.Send and the node post a
+	// submission message by message; the board goes away in between), then heals
+	SendPartialOnce int
 }
 
 var _ storage.Storage = (*BoardHandle)(nil)
@@ -104,6 +108,13 @@ func (h *BoardHandle) Send(msgs ...storage.Message) error {
 	if h.Unavailable || h.SendErrOnce {
 		h.SendErrOnce = false
 		h.b.w.Stats.Fault("board-send-error")
+		return errors.New("sim: board unreachable")
+	}
+	if k := h.SendPartialOnce; k > 0 && len(msgs) > k {
+		h.SendPartialOnce = 0
+		res := h.b.Append(h.node, msgs[:k]...)
+		copy(msgs, res)
+		h.b.w.Stats.Fault("board-send-error-after-part-of-a-submission")
 		return errors.New("sim: board unreachable")
 	}
 	res := h.b.Append(h.node, msgs...)
